@@ -3,12 +3,14 @@ docs/environment_variables.rst (rst scanner) and the COMPLETE behaviour table of
 (width, scale) in (-5..45 U {unset})^2 x prior module globals, obtained by calling the real function with patched os.environ
 and patched module globals, written into Gen/Config.v on every run.
 
-Prior globals = the defaults + the globals left behind by every single-variable setting -5..45 started from the defaults
-(accepted or not: the function assigns the globals before it validates) — the states the in-process K sequence visits.
+Prior globals = the defaults + the globals left behind by every single-variable setting -5..45 started from the defaults +
+a few states that only a misbehaving function could leave ((45,10), (28,3), (3,3), (-1,-1), (0,0)).
 
-Compression (done here, stated in the evidence): rows where BOTH variables are set are evaluated by the real function under
-EVERY prior; the translator checks that they are identical across priors and writes them once (`tab_both`); rows with at
-least one variable unset are written per prior (`tab_unset`).  `Model.Config.code_table` decompresses."""
+Each row = (kind, value reported by the error message, globals after the call).  Compression (done here, stated in the
+evidence): a row with BOTH variables set is evaluated by the real function under EVERY prior; when one row — with the globals
+after the call written explicitly (`PNew w s`) or as "unchanged" (`PSame`) — describes all of them it is written once
+(`tab_both`), otherwise it goes, like every row with an unset variable, into the per-prior table (`tab_unset`).
+`Model.Config.code_table` decompresses."""
 from __future__ import annotations
 
 import os
@@ -20,6 +22,7 @@ from common import GEN, REPO, coq_list, coq_z, write_if_changed
 LO, HI = -5, 45
 AXIS: List[Optional[int]] = [None] + list(range(LO, HI + 1))
 WVAR, SVAR = "VTL_DUCKDB_DECIMAL_WIDTH", "OUTPUT_NUMBER_SIGNIFICANT_DIGITS"
+SYNTHETIC_PRIORS = [(45, 10), (28, 3), (3, 3), (-1, -1), (0, 0)]
 
 
 def cfg_module():
@@ -96,9 +99,9 @@ def doc_ranges() -> Dict[str, Dict[str, int]]:
     return out
 
 
-def _call(C, ew: Optional[int], es: Optional[int], gw: int, gs: int) -> Tuple[int, int, int]:
-    """(kind, width global after, scale global after); kind 0 accepted, 1 config error naming the scale variable,
-    2 config error naming the width variable.  Anything else raises (broken tie)."""
+def _call(C, ew: Optional[int], es: Optional[int], gw: int, gs: int) -> Tuple[int, int, int, int]:
+    """(kind, reported value, width global after, scale global after); kind 0 accepted (reported 0), 1 config error naming
+    the scale variable, 2 config error naming the width variable.  Anything else raises (broken tie)."""
     from vtlengine.Exceptions import RunTimeError
     C.DECIMAL_WIDTH, C.DECIMAL_SCALE = gw, gs
     for var, v in ((WVAR, ew), (SVAR, es)):
@@ -106,6 +109,7 @@ def _call(C, ew: Optional[int], es: Optional[int], gw: int, gs: int) -> Tuple[in
             os.environ.pop(var, None)
         else:
             os.environ[var] = str(v)
+    reported = 0
     try:
         C.set_decimal_config()
         kind = 0
@@ -120,12 +124,11 @@ def _call(C, ew: Optional[int], es: Optional[int], gw: int, gs: int) -> Tuple[in
         kind = 1 if m.group(1) == SVAR else 2 if m.group(1) == WVAR else None
         if kind is None:
             raise RuntimeError("0-4-1-1 names an unknown variable: " + msg)
-        # the reported value / bounds are redundant with the post-state and the constants: check instead of dumping
-        after = C.DECIMAL_SCALE if kind == 1 else C.DECIMAL_WIDTH
+        reported = int(m.group(2))
         lo, hi = (C.MIN_DECIMAL_SCALE, C.MAX_DECIMAL_SCALE) if kind == 1 else (C.MIN_DECIMAL_WIDTH, C.MAX_DECIMAL_WIDTH)
-        if (int(m.group(2)), int(m.group(3)), int(m.group(4)), int(m.group(5))) != (after, lo, hi, C.DISABLE_VALUE):
-            raise RuntimeError(f"0-4-1-1 message reports {m.groups()} but the globals/constants are {(after, lo, hi, C.DISABLE_VALUE)}")
-    return kind, C.DECIMAL_WIDTH, C.DECIMAL_SCALE
+        if (int(m.group(3)), int(m.group(4)), int(m.group(5))) != (lo, hi, C.DISABLE_VALUE):
+            raise RuntimeError(f"0-4-1-1 message reports the bounds {m.groups()[2:]} but the constants are {(lo, hi, C.DISABLE_VALUE)}")
+    return kind, reported, C.DECIMAL_WIDTH, C.DECIMAL_SCALE
 
 
 def behaviour_table():
@@ -138,10 +141,13 @@ def behaviour_table():
         priors = [d]
         for k in range(LO, HI + 1):
             for ew, es in ((k, None), (None, k)):
-                _, gw, gs = _call(C, ew, es, *d)
+                _, _, gw, gs = _call(C, ew, es, *d)
                 if (gw, gs) not in priors:
                     priors.append((gw, gs))
-        full: Dict[Tuple[int, int], Dict[Tuple[Optional[int], Optional[int]], Tuple[int, int, int]]] = {}
+        for g in SYNTHETIC_PRIORS:
+            if g not in priors:
+                priors.append(g)
+        full: Dict[Tuple[int, int], Dict[Tuple[Optional[int], Optional[int]], Tuple[int, int, int, int]]] = {}
         n = 0
         for g in priors:
             row = {}
@@ -164,8 +170,8 @@ def _oz(v: Optional[int]) -> str:
     return "None" if v is None else f"(Some {coq_z(v)})"
 
 
-def _r(t) -> str:
-    return f"({t[0]}, {coq_z(t[1])}, {coq_z(t[2])})"
+def _row(kind, rep, post) -> str:
+    return f"({kind}, {coq_z(rep)}, {'PSame' if post is None else f'PNew {coq_z(post[0])} {coq_z(post[1])}'})"
 
 
 def emit() -> dict:
@@ -174,15 +180,23 @@ def emit() -> dict:
     priors, full, n_calls = behaviour_table()
     both_keys = [(ew, es) for ew in AXIS for es in AXIS if ew is not None and es is not None]
     unset_keys = [(ew, es) for ew in AXIS for es in AXIS if ew is None or es is None]
-    base = full[priors[0]]
-    prior_dependent_both = [(g, key) for g in priors for key in both_keys if full[g][key] != base[key]]
+    shared, per_prior_both = {}, []
+    for key in both_keys:
+        rows = [full[g][key] for g in priors]
+        k0, r0, w0, s0 = rows[0]
+        if all(r == rows[0] for r in rows):
+            shared[key] = (k0, r0, (w0, s0))
+        elif all(r[:2] == (k0, r0) and r[2:] == g for r, g in zip(rows, priors)):
+            shared[key] = (k0, r0, None)
+        else:
+            per_prior_both.append(key)
     L = ["(* GENERATED by harness/translate/config.py from /repo's working tree on every run. Do not edit. *)",
          "From Coq Require Import ZArith List. Import ListNotations.",
          "From VTL Require Import Model.Config.", "Open Scope Z_scope.", ""]
-    L.append(f"(* constants of duckdb_transpiler/Config/config.py, by import *)")
+    L.append("(* constants of duckdb_transpiler/Config/config.py, by import *)")
     L.append(f"Definition code_consts : consts := mkConsts {coq_z(k['min_w'])} {coq_z(k['max_w'])} {coq_z(k['def_w'])} "
              f"{coq_z(k['min_s'])} {coq_z(k['max_s'])} {coq_z(k['def_s'])} {coq_z(k['disable'])}.")
-    L.append(f"(* Utils/_number_config.py (the same variable read by the scalar path): (min, max, disable) *)")
+    L.append("(* Utils/_number_config.py (the same variable read by the scalar path): (min, max, disable) *)")
     L.append(f"Definition number_config_range : Z * Z * Z := ({coq_z(k['nc_min'])}, {coq_z(k['nc_max'])}, {coq_z(k['nc_disable'])}).")
     for name, var in (("doc_width", WVAR), ("doc_scale", SVAR)):
         d = doc[var]
@@ -192,22 +206,23 @@ def emit() -> dict:
     L.append(f"Definition axis : list (option Z) := {coq_list([_oz(v) for v in AXIS])}.")
     L.append(f"Definition priors : list globals := {coq_list([f'mkG {coq_z(a)} {coq_z(b)}' for a, b in priors])}.")
     L.append("")
-    L.append("(* set_decimal_config with both variables set: identical under every prior (checked by the translator on "
-             f"{len(priors)} priors x {len(both_keys)} settings); key = (width, scale) *)")
-    L.append("Definition tab_both : list ((Z * Z) * (Z * Z * Z)) := [")
-    L.append(";\n".join(f"  (({coq_z(ew)}, {coq_z(es)}), {_r(base[(ew, es)])})" for ew, es in both_keys))
+    L.append(f"(* set_decimal_config with both variables set, rows valid under every one of the {len(priors)} priors (checked by the "
+             "translator); key = (width, scale) *)")
+    L.append("Definition tab_both : list ((Z * Z) * (Z * Z * post)) := [")
+    L.append(";\n".join(f"  (({coq_z(ew)}, {coq_z(es)}), {_row(*shared[(ew, es)])})" for ew, es in both_keys if (ew, es) in shared))
     L.append("].\n")
-    L.append("(* set_decimal_config with at least one variable unset, per prior globals; key = (env width, env scale) *)")
-    L.append("Definition tab_unset : list (globals * list ((option Z * option Z) * (Z * Z * Z))) := [")
+    L.append("(* all other rows, per prior globals; key = (env width, env scale) *)")
+    L.append("Definition tab_unset : list (globals * list ((option Z * option Z) * (Z * Z * post))) := [")
     blocks = []
     for g in priors:
-        rows = "; ".join(f"(({_oz(ew)}, {_oz(es)}), {_r(full[g][(ew, es)])})" for ew, es in unset_keys)
+        rows = "; ".join(f"(({_oz(ew)}, {_oz(es)}), {_row(full[g][(ew, es)][0], full[g][(ew, es)][1], full[g][(ew, es)][2:])})"
+                         for ew, es in unset_keys + per_prior_both)
         blocks.append(f"  (mkG {coq_z(g[0])} {coq_z(g[1])}, [{rows}])")
     L.append(";\n".join(blocks))
     L.append("].\n")
     write_if_changed(GEN / "Config.v", "\n".join(L))
     return {"consts": k, "doc": doc, "priors": priors, "full": full, "n_calls": n_calls,
-            "prior_dependent_both": prior_dependent_both, "axis": AXIS}
+            "rows_not_shared": per_prior_both, "axis": AXIS}
 
 
 def regenerate():
@@ -217,4 +232,4 @@ def regenerate():
 if __name__ == "__main__":
     d = emit()
     print(d["consts"], d["doc"], len(d["priors"]), "priors", d["n_calls"], "calls of the real function;",
-          len(d["prior_dependent_both"]), "both-set rows that depend on the prior")
+          len(d["rows_not_shared"]), "both-set rows stored per prior")
